@@ -218,7 +218,7 @@ func init() {
 		ID:   "C10",
 		Run:  func(r *simkit.Run) { prodRun(r, false) },
 		Real: real, Stub: stub,
-		Rule: "each run draws a prior state (1-5 members, 0-4 candidates some expired, policy), 1-7 operations (joins with right/wrong start, own/foreign key, enough/too few member signatures, candidates of new nodes/members/candidates, disjoins, network policy changes incl. two in one block), optionally an expel voteproof; the same proposal is processed 3 times (thorough 6) under different schedules of the parallel Process/Merge/SetStates/CloseStates jobs and worker sizes 1..64. Manifest hash, operations-tree root, states-tree root and suffrage hash must be identical (and all runs fail or none). distinct = event-log hash",
+		Rule:        "each run draws a prior state (1-5 members, 0-4 candidates some expired, policy), 1-7 operations (joins with right/wrong start, own/foreign key, enough/too few member signatures, candidates of new nodes/members/candidates, disjoins, network policy changes incl. two in one block), optionally an expel voteproof; the same proposal is processed 3 times (thorough 6) under different schedules of the parallel Process/Merge/SetStates/CloseStates jobs and worker sizes 1..64. Manifest hash, operations-tree root, states-tree root and suffrage hash must be identical (and all runs fail or none). distinct = event-log hash",
 		Assumptions: []string{"operations are valid at the operation level (IsValid) as the pool would require; semantic validity is what the processors decide"},
 	})
 
@@ -226,7 +226,7 @@ func init() {
 		ID:   "C17",
 		Run:  func(r *simkit.Run) { prodRun(r, true) },
 		Real: real, Stub: stub,
-		Rule: "the C10 workload; additionally the same operations are proposed in two other orders. For every resulting suffrage state: members unique, suffrage height exactly +1, every new member is an unexpired candidate with a join signed by its registered key and by at least the threshold of distinct current members, every removed member is a current member with its own disjoin or an expel, and the membership is identical across schedules and across operation orders. distinct = event-log hash",
+		Rule:        "the C10 workload; additionally the same operations are proposed in two other orders. For every resulting suffrage state: members unique, suffrage height exactly +1, every new member is an unexpired candidate with a join signed by its registered key and by at least the threshold of distinct current members, every removed member is a current member with its own disjoin or an expel, and the membership is identical across schedules and across operation orders. distinct = event-log hash",
 		Assumptions: []string{"the required number of member signatures comes from Threshold.Threshold"},
 	})
 }
